@@ -41,17 +41,32 @@ Proof. intros k0 h ar a H. exact (step_rejections _ ar a (run_stable k0 h) H). Q
 Print Assumptions C08_lifecycle_history.
 
 (* ---- (2) open archives: add is accepted exactly by the tag/type/declaration rule [add_ok];
-   a rejected add leaves the archive unchanged in every row except the undeclared-complex one *)
+   a rejected add leaves the archive unchanged, in every row *)
 Theorem C08_add_accepts_iff :
   forall a key o, is_open a = true -> (snd (setitem a key o) = Ok tt <-> add_ok a key o = true).
 Proof. exact setitem_accepts_iff. Qed.
 Print Assumptions C08_add_accepts_iff.
 
+(* every rejected _setitem -- every row of the table, the undeclared complex included since the
+   repair (fix: checks before side effects) -- leaves the archive exactly as it was *)
 Theorem C08_add_reject_unchanged :
-  forall a key o, is_open a = true -> add_ok a key o = false -> clean_reject a key o = true ->
-  exists e, setitem a key o = (a, Err e) /\ (e = RuntimeError \/ (e = AttributeError /\ a_u2i a = None)).
-Proof. exact setitem_reject_unchanged. Qed.
+  forall a key o a' e, setitem a key o = (a', Err e) ->
+  a' = a /\ (e = RuntimeError \/ (e = AttributeError /\ a_u2i a = None)).
+Proof. exact setitem_atomic. Qed.
 Print Assumptions C08_add_reject_unchanged.
+
+(* Archive.add with any keyword list is all or nothing (fix: add restores the dicts when an entry
+   is rejected); replaces the former C08_add_partial_refuted / C08_add_undeclared_complex_refuted *)
+Theorem C08_add_atomic :
+  forall a kw a' e, add a kw = (a', Err e) -> a' = a /\ (e = RuntimeError \/ e = AttributeError).
+Proof. exact add_atomic. Qed.
+Print Assumptions C08_add_atomic.
+
+(* replaces the former C08_write_after_failed_add_refuted: a rejected add cannot spoil a later write *)
+Theorem C08_write_after_rejected_add :
+  forall s a kw a' e f, add a kw = (a', Err e) -> write s a' f = write s a f.
+Proof. exact write_after_rejected_add. Qed.
+Print Assumptions C08_write_after_rejected_add.
 
 Theorem C08_add_stores :
   forall a key r a', setitem a key (PReal r) = (a', Ok tt) ->
@@ -61,30 +76,15 @@ Theorem C08_add_stores :
 Proof. exact setitem_real_stored. Qed.
 Print Assumptions C08_add_stores.
 
-(* rows of the table that are FALSE of the implementation (witnesses; replayed on GTC by the
-   known-finding checks of harness/p_C08.py) *)
-Theorem C08_add_partial_refuted :
-  exists a kw a', is_open a = true /\ add a kw = (a', Err RuntimeError) /\ a' <> a /\
-                  sget (a_treal a') "a"%string = Some (RLive x_elem).
-Proof. exact add_partial_refuted. Qed.
-Print Assumptions C08_add_partial_refuted.
-
-Theorem C08_add_undeclared_complex_refuted :
-  exists a k o a', is_open a = true /\ setitem a k o = (a', Err RuntimeError) /\ a' <> a /\
-                   smem (a_ureal a') (tag_re k) = true /\ smem (a_ureal a') (tag_im k) = true.
-Proof. exact setitem_undeclared_complex_refuted. Qed.
-Print Assumptions C08_add_undeclared_complex_refuted.
-
-Theorem C08_write_after_failed_add_refuted :
-  exists a0 a1 a2,
-    add empty_archive [("a"%string, PReal x_elem)] = (a0, Ok tt) /\
-    setitem a0 "z"%string (PComplex p_plain p_plain) = (a1, Err RuntimeError) /\
-    is_open a1 = true /\ alen a1 <> 0%nat /\
-    (forall f, write ses1 a1 f = (a2, Err AttributeError)) /\ a2 <> a1 /\ is_open a2 = true /\
-    fst (setitem a2 "m"%string (PReal m_interm)) = a2 /\
-    snd (setitem a2 "m"%string (PReal m_interm)) = Err AttributeError.
-Proof. exact write_after_failed_add_refuted. Qed.
-Print Assumptions C08_write_after_failed_add_refuted.
+(* the inputs that used to witness the three defects (replayed on GTC as regression checks) *)
+Example C08_former_witnesses_repaired :
+  add empty_archive [("a"%string, PReal x_elem); ("b"%string, PReal p_plain)] = (empty_archive, Err RuntimeError) /\
+  setitem empty_archive "z"%string (PComplex p_plain p_plain) = (empty_archive, Err RuntimeError) /\
+  exists a0 a1, add empty_archive [("a"%string, PReal x_elem)] = (a0, Ok tt) /\
+    setitem a0 "z"%string (PComplex p_plain p_plain) = (a0, Err RuntimeError) /\
+    (forall f, exists d, write ses1 a0 f = (a1, Ok d)) /\ is_written a1 = true /\
+    snd (setitem a0 "m"%string (PReal m_interm)) = Ok tt.
+Proof. exact former_witnesses_repaired. Qed.
 
 (* ---- (3) written: write again = same document, archive unchanged, whatever the session did *)
 Theorem C08_write_twice_same :
@@ -126,32 +126,43 @@ Theorem C08_extract_pure :
 Proof. exact step_extract_pure. Qed.
 Print Assumptions C08_extract_pure.
 
-(* reading is NOT pure: the archived correlation dict is assigned onto a live leaf *)
-Theorem C08_read_pure_refuted :
+(* reading is pure for what live numbers report from their leaves (fix: _thaw merges the archived
+   correlations instead of assigning them): loading a document, Archive.copy, _thaw -- succeeding
+   or failing, at any point of any history -- never unregisters a leaf a live number refers to,
+   never changes its label, u, df, independent, and never removes or changes a correlation it
+   knows.  Replaces the former C08_read_pure_refuted / C08_copy_pure_refuted. *)
+Theorem C08_read_pure :
+  forall st o u l, load_op o = true ->
+  In u (flat_map pyobj_leaf_refs (st_objs st)) -> lget (s_leaves (st_ses st)) u = Some l ->
+  exists l', lget (s_leaves (st_ses (fst (step st o)))) u = Some l' /\ leaf_le l l'.
+Proof. exact step_load_keeps. Qed.
+Print Assumptions C08_read_pure.
+
+Theorem C08_thaw_keeps_session :
+  forall s a b s' a' r, thaw s a b = (s', a', r) -> keeps s s'.
+Proof. exact thaw_keeps. Qed.
+Print Assumptions C08_thaw_keeps_session.
+
+(* the history that used to lose r(y1,y3): now the registry is literally unchanged by the load *)
+Example C08_hist17_repaired :
   let st := run (init_state 1) hist17 in
-  let st' := fst (step st (ORead 0)) in
-  snd (step st (ORead 0)) = OutOk /\
+  snd (step st (ORead 0)) = OutOk /\ snd (step st (OCopy 0)) = OutOk /\
   corr_of st (1, 1) (1, 3) = Some 2 /\ corr_of st (1, 3) (1, 1) = Some 2 /\
-  corr_of st' (1, 1) (1, 3) = None /\ corr_of st' (1, 3) (1, 1) = Some 2.
-Proof. exact read_pure_refuted. Qed.
-Print Assumptions C08_read_pure_refuted.
+  corr_of (fst (step st (ORead 0))) (1, 1) (1, 3) = Some 2 /\ corr_of (fst (step st (ORead 0))) (1, 1) (1, 2) = Some 4 /\
+  corr_of (fst (step st (OCopy 0))) (1, 1) (1, 3) = Some 2 /\
+  s_leaves (st_ses (fst (step st (ORead 0)))) = s_leaves (st_ses st).
+Proof. exact hist17_repaired. Qed.
 
-Theorem C08_copy_pure_refuted :
-  let st := run (init_state 1) hist17 in
-  let st' := fst (step st (OCopy 0)) in
-  snd (step st (OCopy 0)) = OutOk /\
-  corr_of st (1, 1) (1, 3) = Some 2 /\ corr_of st' (1, 1) (1, 3) = None /\ corr_of st' (1, 3) (1, 1) = Some 2.
-Proof. exact copy_pure_refuted. Qed.
-Print Assumptions C08_copy_pure_refuted.
+(* a JSON document is read exactly as the pickled frozen archive (fix in json_format.jason_to_leaf,
+   C07): replaces the former C08_read_json_complex_refuted *)
+Theorem C08_read_json_as_pickle : forall s a, read s (FJson, a) = read s (FPickle, a).
+Proof. exact read_json_as_pickle. Qed.
+Print Assumptions C08_read_json_as_pickle.
 
-Theorem C08_read_json_complex_refuted :
+Example C08_hist20_repaired :
   let st := run (init_state 1) hist20 in
-  let st' := fst (step st (ORead 0)) in
-  snd (step st (ORead 0)) = OutOk /\
-  cx_of st (1, 1) = Some (false, ((1, 1), (1, 2))) /\ cx_of st' (1, 1) = Some (true, ((1, 1), (1, 2))) /\
-  cx_of st (1, 2) = Some (false, ((1, 1), (1, 2))) /\ cx_of st' (1, 2) = Some (true, ((1, 1), (1, 2))).
-Proof. exact read_json_complex_refuted. Qed.
-Print Assumptions C08_read_json_complex_refuted.
+  snd (step st (ORead 0)) = OutOk /\ st_ses (fst (step st (ORead 0))) = st_ses st.
+Proof. exact hist20_repaired. Qed.
 
 (* ---- (6) fresh uids.  Loading (and Archive.copy) never touches the context id or the counters;
    a number declared after a load takes (context id, counter+1), which no uid of the document
